@@ -311,16 +311,19 @@ static void mon_c10(World& w) {
     for (size_t k = 0; k < atts.size(); ++k) {
         const Att& a = atts[k];
         if (!a.ok && a.end >= 0 && a.end - a.start > 5000000000LL) { w.vio("C10:handshake-not-abandoned-in-5s:" + sn, "connection attempt on stream " + std::to_string(a.stream) + " lasted " + std::to_string((a.end - a.start) / 1e9) + " s"); break; }
-        if (k == 0) { if (a.addr != cycle[0]) { w.vio("C10:first-host:" + sn, "first connection attempt did not go to the first broker of the list"); break; } continue; }
+        bool dns_varies = sc.gate_dns;   // lookups may fail or time out: hosts can be skipped and lookups take time
+        if (k == 0) { if (a.addr != cycle[0] && !dns_varies) { w.vio("C10:first-host:" + sn, "first connection attempt did not go to the first broker of the list"); break; } continue; }
         const Att& pr = atts[k - 1];
         { bool restarted = false; for (auto& o : w.ops) if (o.kind == Action::RUN && o.op_seq_init >= pr.seq && o.op_seq_init < a.seq) restarted = true; if (w.drain_result.done && false) restarted = true;
-          if (restarted) { if (a.addr != cycle[0]) { w.vio("C10:first-host:" + sn, "first connection attempt after a restart did not go to the first broker of the list"); break; } continue; } }
+          if (restarted) { if (a.addr != cycle[0] && !dns_varies) { w.vio("C10:first-host:" + sn, "first connection attempt after a restart did not go to the first broker of the list"); break; } continue; } }
         size_t pi = std::find(cycle.begin(), cycle.end(), pr.addr) - cycle.begin(); size_t ci = std::find(cycle.begin(), cycle.end(), a.addr) - cycle.begin();
         if (pi >= cycle.size() || ci >= cycle.size()) { w.vio("C10:unknown-endpoint:" + sn, "connection attempt to an address outside the broker list"); break; }
         // a two-address host whose first address succeeded moves on to the next host, otherwise to the next address
         bool wrap = false; size_t expect = (pi + 1) % cycle.size();
         if (pr.ok && (cycle[pi] >> 8 & 0xFF) == 0 && expect < cycle.size() && (cycle[expect] >> 8 & 0xFF) == 1) expect = (expect + 1) % cycle.size();
         wrap = expect <= pi;
+        if (dns_varies) { // only the direction is fixed: moving backwards in the list is a wrap-around and needs the pause
+            bool back = ci <= pi && !(pr.ok); if (back && pr.end >= 0 && a.start - pr.end < 500000000LL && !w.stopped_phase) { w.vio("C10:wrap-without-pause:" + sn, "attempts wrapped around the broker list without the back-off pause"); break; } continue; }
         if (ci != expect) { w.vio("C10:rotation-order:" + sn, "attempt " + std::to_string(k) + " went to endpoint #" + std::to_string(ci) + " of the list, expected #" + std::to_string(expect)); break; }
         if (pr.end < 0) continue;
         int64_t gap = a.start - pr.end;
@@ -579,7 +582,7 @@ std::vector<Scenario> scenarios_for(const std::string& prop, int tier) {
     }
     else if (prop == "C03") {
         uint32_t fam = RECOVERABLE | SCHED | (tier ? F_BYTE : 0);
-        { auto s = base("X1-qos2", {RUN(), PUB(2, 1)}, fam, tier ? 3 : 2, M_C03); v.push_back(s); }
+        { auto s = base("X1-qos2", {RUN(), PUB(2, 1)}, fam, tier ? 4 : 2, M_C03); if (tier) s.fam &= ~F_BYTE; v.push_back(s); if (tier) { s.name = "X1-qos2-bytecuts"; s.fam |= F_BYTE; s.D = 3; v.push_back(s); } }
         { auto s = base("X2-qos2-between-qos1", {RUN(), PUB(1, 1), PUB(2, 2), PUB(1, 3)}, fam & ~(F_WRSHORT | F_CHUNK), tier ? 2 : 2, M_C03); v.push_back(s); }
         { auto s = base("X3-qos2-tcp", {RUN(), PUB(2, 1), PUB(2, 2)}, fam & ~(F_WRSHORT | F_CHUNK), tier ? 2 : 1, M_C03); s.flavour = 1; v.push_back(s); }
     }
@@ -619,14 +622,15 @@ std::vector<Scenario> scenarios_for(const std::string& prop, int tier) {
         uint32_t fam = F_WR | F_RDCUT | F_REORDER | F_DELAY | F_BCLOSE;
         { auto s = base("I-mixed-out-of-order", {RUN(), PUB(1, 1), SUB({{"a", 1}}), PUB(2, 2), UNSUB({"b"}), BARRIER(), PUB(1, 3), PUB(2, 4)}, fam, tier ? 2 : 1, M_C08); v.push_back(s); }
         { auto s = base("I-cancel-middle", {RUN(), slot(PUB(1, 1)), slot(PUB(1, 2)), slot(PUB(1, 3)), PUB(1, 4)}, fam | F_INJECT, tier ? 3 : 2, M_C08); s.inject = SIGNAL(2, 1); s.after_inject = {PUB(1, 5), PUB(2, 6)}; v.push_back(s); }
-        { // all 65535 identifiers outstanding (Receive Maximum 1 keeps them queued): the 65536th request reports pid_overrun, and only then
-          Scenario s = base("I-exhaustion", {RUN(), WAIT_HS(1)}, 0, 0, M_C08 | M_C15); s.broker.connack_props = {ref::pnum(0x21, 1)}; s.max_steps = 400000; s.horizon_s = 1000000; s.expect_all_success = false;
-          Action hold = PUB(1, 1); s.script.push_back(hold);
-          for (int i = 2; i <= 65535; ++i) { Action a = PUB(1, i); a.payload = "p" + std::to_string(i); a.topic = "x"; s.script.push_back(a); }
-          { Action a = PUB(2, 70000); a.expect_reject = true; a.expect_ec = 103; s.script.push_back(a); }                       // pid_overrun
-          { Action a = SUB({{"ov/1", 1}}); a.tag = 70001; a.expect_reject = true; a.expect_ec = 103; s.script.push_back(a); }
-          { Action a = UNSUB({"ov/2"}); a.tag = 70002; a.expect_reject = true; a.expect_ec = 103; s.script.push_back(a); }
-          s.broker.pingresp = true; s.epilogue_cancel = true; if (tier) v.push_back(s); }
+        { // all 65535 identifiers outstanding (slow broker, Receive Maximum 1 keeps them queued): only the 65536th request reports pid_overrun
+          Scenario s = base("I-exhaustion", {RUN(), WAIT_HS(1)}, 0, 0, M_C08 | M_C15); s.broker.connack_props = {ref::pnum(0x21, 1)}; s.broker.hold_publish_acks = true; s.max_steps = 60; s.horizon_s = 2; s.expect_all_success = false;
+          { Action m = A(Action::PUBMANY); m.qos = 1; m.tag = 1; m.n = 65534; s.script.push_back(m); }
+          { Action a = PUB(2, 80000); s.script.push_back(a); }                                                                       // takes the last free identifier
+          { Action a = PUB(2, 80001); a.expect_reject = true; a.expect_ec = 103; s.script.push_back(a); }                            // pid_overrun
+          { Action a = SUB({{"ov/1", 1}}); a.tag = 80002; a.expect_reject = true; a.expect_ec = 103; s.script.push_back(a); }
+          { Action a = UNSUB({"ov/2"}); a.tag = 80003; a.expect_reject = true; a.expect_ec = 103; s.script.push_back(a); }
+          { Action a = PUB(0, 80004); s.script.push_back(a); }                                                                       // QoS 0 needs no identifier
+          v.push_back(s); }
         { auto s = base("I-rm1-reconnect", {RUN(), PUB(1, 1), PUB(2, 2), PUB(1, 3)}, fam | F_TAIL, 2, M_C08); s.broker.connack_props = {ref::pnum(0x21, 1)}; v.push_back(s); }
     }
     else if (prop == "C05" || prop == "C09") {
@@ -641,6 +645,7 @@ std::vector<Scenario> scenarios_for(const std::string& prop, int tier) {
             {"B4-connected-rm1", {slot(RUN()), slot(RECV(1)), slot(PUB(1, 1)), slot(PUB(2, 2)), slot(SUB({{"a", 1}})), slot(PUB(0, 3))}, {ref::pnum(0x21, 1)}, 0},
             {"B4-connected-rm1-tcp", {slot(RUN()), slot(RECV(1)), slot(PUB(1, 1)), slot(PUB(2, 2)), slot(UNSUB({"a"}))}, {ref::pnum(0x21, 1)}, 1},
             {"B7-two-brokers", {slot(RUN()), slot(PUB(1, 1)), slot(RECV(1))}, {}, 0},
+            {"B10-slow-dns", {slot(RUN()), slot(PUB(1, 1)), slot(RECV(1))}, {}, 0},
         };
         struct I { const char* name; Action act; bool restart; };
         std::vector<I> injs;
@@ -651,12 +656,13 @@ std::vector<Scenario> scenarios_for(const std::string& prop, int tier) {
         for (auto& b : bases) for (auto& in : injs) {
             if (in.act.k == Action::SIGNAL && in.act.target_op >= int(b.script.size())) continue;
             uint32_t netfam = F_WR | F_RDCUT | F_CONN | F_HS | F_BCLOSE | F_SHUT;
-            Scenario s = base(std::string(b.name) + "+" + in.name + (in.act.k == Action::SIGNAL ? "-op" + std::to_string(in.act.target_op) + "-t" + std::to_string(in.act.sig_type) : ""), b.script, F_INJECT | F_FINE | (tier ? netfam | F_REORDER : (c9 ? netfam : 0)), tier ? 2 : (c9 ? 2 : 1), mon);
+            Scenario s = base(std::string(b.name) + "+" + in.name + (in.act.k == Action::SIGNAL ? "-op" + std::to_string(in.act.target_op) + "-t" + std::to_string(in.act.sig_type) : ""), b.script, F_INJECT | F_FINE | (tier ? netfam | F_REORDER : netfam), tier ? 3 : 2, mon);
             s.flavour = b.flavour; s.broker.connack_props = b.ca; s.inject = in.act; s.expect_all_success = false;
             if (std::string(b.name) == "B7-two-brokers") { s.hosts = "b0,b1"; s.fam |= F_CONN | F_HS; s.D = 2; }
+            if (std::string(b.name) == "B10-slow-dns") { s.hosts = "b0,b1"; s.gate_dns = true; s.fam |= F_CONN | F_REORDER; s.D = 2; }
             if (in.restart) { s.after_inject = {RUN(), PUB(1, 90), PUB(2, 91)}; }
             if (c9) { s.idle_tail_s = 0; }
-            if (in.act.k == Action::SIGNAL) { s.monitors &= ~M_C09; }
+            if (in.act.k == Action::SIGNAL) { s.monitors &= ~M_C09; if (!tier) s.D = 1; }
             s.max_steps = 900;
             v.push_back(s);
         }
@@ -680,13 +686,15 @@ std::vector<Scenario> scenarios_for(const std::string& prop, int tier) {
     else if (prop == "C10") {
         // handshake outcome sequences x broker lists
         uint32_t fam = F_CONN | F_HS | F_REORDER;
-        { auto s = base("H1-one-broker", {RUN(), PUB(1, 1)}, fam, tier ? 4 : 3, M_C10 | M_C02); v.push_back(s); }
-        { auto s = base("H2-two-brokers", {RUN(), PUB(1, 1)}, fam, tier ? 4 : 3, M_C10 | M_C02); s.hosts = "b0, b1:1884"; v.push_back(s); }
+        { auto s = base("H1-one-broker", {RUN(), PUB(1, 1)}, fam, tier ? 5 : 3, M_C10 | M_C02); s.max_steps = 1200; v.push_back(s); }
+        { auto s = base("H2-two-brokers", {RUN(), PUB(1, 1)}, fam, tier ? 5 : 3, M_C10 | M_C02); s.hosts = "b0, b1:1884"; s.max_steps = 1200; v.push_back(s); }
         { auto s = base("H3-three-brokers-two-addresses", {RUN(), PUB(1, 1), PUB(2, 2)}, fam & ~F_REORDER, tier ? 4 : 3, M_C10 | M_C02); s.hosts = "b0,b1,b2"; s.dns_two_mask = 2; v.push_back(s); }
         { auto s = base("H4-unresolvable-first", {RUN(), PUB(1, 1)}, fam, 2, M_C10 | M_C02); s.hosts = "b0,b1"; s.dns_fail_mask = 1; v.push_back(s); }
         { auto s = base("H5-traffic-before-connack", {PUB(1, 1), SUB({{"a", 1}}), RUN(), PUB(2, 2)}, fam | F_CHUNK | F_DELAY, 2, M_C10); s.expect_all_success = false; v.push_back(s); }
         { auto s = base("H6-auth-two-step", {RUN(), PUB(1, 1)}, fam | F_WR | F_RDCUT, 2, M_C10 | M_C02); s.auth.present = true; s.auth.method = "SCRAM"; s.broker.auth_method = "SCRAM"; s.broker.auth_rounds = 2; v.push_back(s); }
         { auto s = base("H7-tcp-reconnects", {RUN(), PUB(1, 1), PUB(1, 2)}, fam | F_WR | F_RDCUT | F_BCLOSE, 2, M_C10 | M_C02); s.flavour = 1; s.hosts = "b0,b1"; v.push_back(s); }
+        // DNS lookups are parked environment events: slow DNS (5 s resolve timer), failing lookups, lookups racing with everything else
+        { auto s = base("H10-slow-dns", {RUN(), PUB(1, 1)}, fam, tier ? 4 : 3, M_C10 | M_C02); s.hosts = "b0,b1,b2"; s.gate_dns = true; s.max_steps = 1200; v.push_back(s); }
         // a CONNACK rich in properties (Server Keep Alive, Assigned Client Identifier, limits ...) must not leak into the next CONNECT
         { auto s = base("H8-rich-connack-then-reconnect", {RUN(), PUB(1, 1), PUB(0, 2)}, fam | F_WR | F_RDCUT | F_BCLOSE | F_LOSS, 3, M_C10 | M_C02); s.hosts = "b0,b1"; s.client_id = ""; s.keep_alive = 10; s.user = "u"; s.connect_props = {ref::pnum(0x11, 60), ref::pnum(0x21, 20), ref::ppair("ck", "cv")};
           s.broker.connack_props = {ref::pnum(0x11, 5), ref::pnum(0x21, 7), ref::pnum(0x24, 1), ref::pnum(0x25, 1), ref::pnum(0x27, 4096), ref::pnum(0x22, 3), ref::pstr(0x1F, "welcome"), ref::ppair("sk", "sv"), ref::pnum(0x28, 1), ref::pnum(0x29, 1), ref::pnum(0x2A, 1), ref::pnum(0x13, 30), ref::pstr(0x1A, "resp/info"), ref::pstr(0x1C, "other:1883")};
@@ -710,6 +718,7 @@ std::vector<Scenario> scenarios_for(const std::string& prop, int tier) {
         { auto s = base("S2-keepalive-timeout-meets-sentry", {RUN(), PUB(1, 1), PUB(2, 2)}, fam, tier ? 3 : 2, M_C11); s.keep_alive = 2; s.max_steps = 900; v.push_back(s); s.name += "-tcp"; s.flavour = 1; v.push_back(s); }
         { auto s = base("S3-two-brokers", {RUN(), PUB(1, 1), PUB(1, 2)}, fam, 2, M_C11); s.hosts = "b0,b1"; v.push_back(s); }
         { auto s = base("S5-finenet-failures", {RUN(), PUB(1, 1), PUB(2, 2), SUB({{"a", 1}})}, F_FINENET | F_WR | F_RDCUT | F_REORDER | F_BCLOSE, 2, M_C11); v.push_back(s); s.name += "-tcp"; s.flavour = 1; v.push_back(s); }
+        { auto s = base("S6-slow-dns-failures", {RUN(), PUB(1, 1), PUB(2, 2)}, F_WR | F_RDCUT | F_REORDER | F_CONN | F_HS | F_LOSS, 2, M_C11); s.hosts = "b0,b1"; s.gate_dns = true; v.push_back(s); }
         { auto s = base("S4-cancel-during-reconnect", {RUN(), PUB(1, 1)}, fam | F_INJECT | F_FINE, 2, M_C11 | M_C05); s.inject = CANCEL(); s.expect_all_success = false; v.push_back(s); }
     }
     else if (prop == "C12") {
